@@ -273,8 +273,11 @@ def scan_loop(b):
             "inclusive": "Inclusive" in (it["res"].get("path") or it.get("ty") or "")}
 
 
-def scanner_tables(ctx, res, rule):
-    """Composite table (byte class, char boundary, pause flag) -> {advance, found, stop} of each scanner loop."""
+def scanner_tables(ctx, res, rule, mode="sound"):
+    """Composite table (byte class, char boundary, pause flag) -> {advance, found, stop} of each scanner loop.
+    mode "sound": nothing but blanks is passed while pausing, what is found is what was examined (deleting is safe);
+    mode "complete": the other direction - blanks *are* passed, a line break / non-blank on a boundary *is* found, a
+    non-pausing scan passes everything but a line break (a blank line is recognised as blank, wrapper lines are found)."""
     P = ctx.lib
     specs = [
         ("find_next_line_break_pos", "line_break_pos_finder::check", "linebreak"),
@@ -367,12 +370,39 @@ def scanner_tables(ctx, res, rule):
                             if not ok_stop and o["decisions"]:
                                 bad = "gives up without examining a byte although the position is in range (decisions: %s): a line break / character there is never found" % (
                                     {k_: v_ for k_, v_ in o["decisions"].items() if k_.startswith("ord(")})
+                        if mode == "complete":
+                            bad = None
+                            reached_check = any(e[0] == "examine" for e in o["effects"])       # on this path
+                            at_end = outcome == "stop" and any(re.match(r"^ord\((0, .+|.+, 0)\)$", k_) and v_ == "=" for k_, v_ in o["decisions"].items())
+                            if at_end:
+                                pass        # the examined byte was the first of the text: there is nothing further to scan
+                            elif reached_check and boundary and cls is not None:
+                                if is_blank and outcome != "advance":
+                                    bad = "does not pass the blank byte %s (outcome: %s): a line of spaces and tabs is not recognised as blank" % (cname_, outcome)
+                                elif kind == "linebreak" and is_nl and outcome != "found":
+                                    bad = "does not report a line break on a char boundary (outcome: %s)" % outcome
+                                elif kind == "linebreak" and not is_nl and not is_blank and pause is False and outcome != "advance":
+                                    bad = "does not pass byte %s although it is not pausing (outcome: %s): the line break behind it is never found" % (cname_, outcome)
+                                elif kind == "linebreak" and not is_nl and not is_blank and pause is True and outcome != "stop":
+                                    bad = None if outcome == "advance" else "reports byte %s as a line break" % cname_     # (passing it is the sound table's business)
+                                elif kind == "char" and not is_blank and outcome != "found":
+                                    bad = "does not report the non-blank byte %s (outcome: %s)" % (cname_, outcome)
+                            elif reached_check and not boundary and outcome == "stop":
+                                bad = "gives up inside a multi-byte character"
+                            if bad:
+                                res.add(Finding(rule, fn, "complete:" + key, "scanner %s" % bad, loc=T.loc(loop)))
+                            elif reached_check:
+                                okrows += 1
+                                res.holds(rule, fn, "complete:%s->%s" % (key, outcome))
+                            continue
                         if bad:
                             res.add(Finding(rule, fn, "table:" + key, "scanner %s" % bad, loc=T.loc(loop)))
                         else:
                             okrows += 1
                             res.holds(rule, fn, "table:%s->%s" % (key, outcome))
         tables += 1
+        if mode == "complete":
+            continue
         res.extra.setdefault("scanner_tables", {})[fn] = {k: sorted(v) for k, v in rows.items()}
         # the cursor moves one byte at a time (no byte is skipped unexamined)
         if sl["form"] == "for":
@@ -386,10 +416,20 @@ def scanner_tables(ctx, res, rule):
             if n.get("k") == "assign":
                 res.add(Finding(rule, fn, "step:" + T.render(n)[:60], "scan cursor is reassigned inside the scanner", loc=T.loc(n)))
     res.floor(rule, "scanner loops tabulated", tables, 3)
+    if mode == "complete":
+        return
     _indent_remover_table(ctx, res, rule)
 
 
-def _indent_remover_table(ctx, res, rule):
+def indent_begins_behind_break(ctx, res, rule):
+    """IndentRemover: the indentation that is deleted begins directly behind the line break that was found - the line break
+    itself stays (whole lines are deleted, lines are not joined)."""
+    _indent_remover_table(ctx, res, rule, mode="begin")
+
+
+def _indent_remover_table(ctx, res, rule, mode="bytes"):
+    """mode "bytes": which bytes the scan may pass / accept (deleting a line break is still deleting white space);
+    mode "begin": only where the reported indentation begins."""
     P = ctx.lib
     b = P.fn("IndentRemover::format")
     fn = fshort(b)
@@ -399,6 +439,10 @@ def _indent_remover_table(ctx, res, rule):
         return
     loop = loops[0]
     seam = b["params"][2]["pat"].get("name") if len(b["params"]) == 3 else "?"     # format(&self, content, byte_pos)
+    scan_id = scan_name = None
+    for s_ in T.nodes(b["tree"], "let"):
+        if s_["pat"]["p"] == "bind" and s_.get("init") is not None and T.render(s_["init"]) == seam and "Mut" in s_["pat"].get("mode", ""):
+            scan_id, scan_name = s_["pat"]["id"], s_["pat"]["name"]
     lits = _literal_bytes(b) | {32, 9, 10}
     classes = [A.Lit(x, "byte") for x in sorted(lits)] + [A.CharClass(None, excluded=lits), None]
     n_ok = 0
@@ -412,7 +456,11 @@ def _indent_remover_table(ctx, res, rule):
                 # `while c { body }`: the condition is part of the iteration
                 if "while_cond" in loop and not J.cond(loop["while_cond"], env):
                     raise A._Break(None)
-                return J.ev(loop["body"], env)
+                try:
+                    return J.ev(loop["body"], env)
+                finally:
+                    # where the scan variable stands when the iteration ends (by whatever exit)
+                    J.effects.append(("final", A.show(env[scan_id]) if scan_id in env else scan_name, [], loop))
             try:
                 outs = I.explore(one_iteration)
             except A.Cannot as e:
@@ -424,6 +472,7 @@ def _indent_remover_table(ctx, res, rule):
                 is_blank = isinstance(cls, A.Lit) and cls.v in (32, 9)
                 is_nl = isinstance(cls, A.Lit) and cls.v == 10
                 bad = None
+                bad_begin = None
                 ex_terms = [e[1] for e in o["effects"] if e[0] == "examine"]
                 ret_range = None
                 if o["exit"] == "return" and isinstance(o["value"], A.Tuple) and len(o["value"].items) == 2:
@@ -433,27 +482,53 @@ def _indent_remover_table(ctx, res, rule):
                     outcome = "found"
                     if not (is_nl and boundary):
                         bad = "accepts byte %s (boundary=%s) as the line break that precedes the indentation" % (cname_, boundary)
+                elif ret_range is not None and ret_range[1] == seam and ex_terms and ret_range[0] == ex_terms[-1] and is_nl and boundary:
+                    # `return (p, seam)`: white space only, but the line break that was found goes as well
+                    outcome = "found"
+                    bad_begin = "returns the range %s..%s, which begins at the line break itself, not directly behind it: the line break is deleted and two lines are joined" % ret_range
                 elif ret_range is not None and ret_range != (seam, seam):
                     outcome = "stop"
                     bad = "returns the range %s..%s, which is neither empty nor (examined line break + 1)..seam" % ret_range
-                elif o["exit"] == "break" and isinstance(o["value"], A.Lit) and o["value"].v is True:
+                elif o["exit"] == "break" and ((isinstance(o["value"], A.Lit) and o["value"].v is True) or (isinstance(o["value"], A.Variant) and o["value"].name == "Some")):
+                    # `break true` (the indentation then starts where the scan variable stands) or `break Some(start of the indentation)`
                     outcome = "found"
+                    final = [e[1] for e in o["effects"] if e[0] == "final"]
+                    begins = A.show(o["value"].args[0]) if isinstance(o["value"], A.Variant) else (final[-1] if final else "?")
                     at_start = any(k in ("ord(0, cursor)", "ord(cursor, 0)") and v == "=" for k, v in o["decisions"].items()) and not any(e[0] == "examine" for e in o["effects"])
                     if at_start:
-                        pass        # the start of the file is a line start: nothing is examined, nothing non-blank is skipped
+                        # the start of the file is a line start: nothing is examined, nothing non-blank is skipped
+                        if begins not in (scan_name, "0"):
+                            bad = "reports the indentation as beginning at %s at the start of the file" % begins
                     elif not examined or not (is_nl and boundary):
                         bad = "accepts byte %s (boundary=%s) as the line break that precedes the indentation" % (cname_, boundary)
+                    elif not ex_terms or begins not in ("(%s + 1)" % ex_terms[-1], ex_terms[-1]):
+                        bad = "reports the indentation as beginning at %s, which is not the line break found at %s or the byte behind it" % (begins, ex_terms[-1] if ex_terms else "?")
+                    elif begins != "(%s + 1)" % ex_terms[-1]:
+                        bad_begin = "reports the indentation as beginning at %s, the line break itself, not directly behind it: the line break is deleted and two lines are joined" % begins
+                elif o["exit"] == "break" and not (o["value"] is None or A.show(o["value"]) == "()" or (isinstance(o["value"], A.Lit) and o["value"].v in (False, None)) or (isinstance(o["value"], A.Variant) and o["value"].name == "None")):
+                    outcome = "stop"
+                    bad = "leaves the scan with the value %s, which is neither found (true / Some(start)) nor not-found (false / None)" % A.show(o["value"])
                 elif o["exit"] in ("fall", "continue"):
                     outcome = "advance"
                     if examined and boundary and not is_blank:
                         bad = "skips over byte %s (only ' ' and '\\t' are indentation)" % cname_
                 else:
                     outcome = "stop"
+                if mode == "begin":
+                    if bad_begin:
+                        res.add(Finding(rule, fn, "begin:" + key, "inline indentation scan %s" % bad_begin, loc=T.loc(loop)))
+                    elif outcome == "found":
+                        n_ok += 1
+                        res.holds(rule, fn, "begin:%s" % key)
+                    continue
                 if bad:
                     res.add(Finding(rule, fn, "table:" + key, "inline indentation scan %s" % bad, loc=T.loc(loop)))
                 else:
                     n_ok += 1
                     res.holds(rule, fn, "table:%s->%s" % (key, outcome))
+    if mode == "begin":
+        res.floor(rule, "found outcomes of the IndentRemover scan", n_ok, 1)
+        return
     res.floor(rule, "rows of the IndentRemover inline scan table", n_ok, 8)
 
 
@@ -716,6 +791,13 @@ def _indent_remover_ranges(res, rule, P, b):
                     scr = n_["e"]
             if scr is None:
                 continue
+            if T.local_of(T.peel(scr)) is not None:
+                # the scan's result was given a name first: `let found = loop { .. break Some(cursor + 1) .. }; match found { .. }`
+                defs = [s_ for s_ in T.nodes(b["tree"], "let") if s_["pat"].get("p") == "bind" and s_["pat"]["id"] == T.local_of(T.peel(scr))
+                        and "Mut" not in (s_["pat"].get("mode") or "") and s_.get("init") is not None]
+                if len(defs) != 1:
+                    return False
+                scr = defs[0]["init"]
             payloads = [T.render(T.peel(c_["args"][0])) for c_ in T.nodes(scr, "call")
                         if (T.callee(c_) or "").endswith("Some") and len(c_.get("args", [])) == 1]
             return bool(payloads) and all(p_ in (scan, "(%s + 1)" % scan) for p_ in payloads)
